@@ -170,7 +170,6 @@ func fillBytes(b []byte, seed uint64) {
 type runner interface {
 	run()
 	finish(res *kernel.RunResult)
-	core() *base
 }
 
 func (Engine) Run(t *testing.T, prop, tier string, tape *kernel.Tape, keepLog bool) *kernel.RunResult {
